@@ -6,6 +6,7 @@ import PyamgV.Proofs.ExtC05RefineOp
 import PyamgV.Proofs.ExtSolvePathEx
 import PyamgV.Proofs.ExtSmoothersCycle
 import PyamgV.Proofs.ExtSmoothersRefine
+import PyamgV.Proofs.ExtC03XWitness
 
 /-! # C03 — a cycle is the textbook multigrid recursion: fixed, linear and consistent
 
@@ -204,5 +205,79 @@ example : WFLS [({ A := A2, P := LinearMap.id, R := LinearMap.id,
                    pre := polyFn A2 (-1/5) [1], post := neSweepFn e2 (3/2) rows2,
                    Qpre := polyOp A2 (-1/5) [1], Qpost := sweepM A2 (rows2.map (neRowOp (3/2))) } : LinLevel ℚ (ℚ × ℚ))] :=
   ⟨LinSmoother.polynomial _ _, LinSmoother.neSweep e2 _ rows2 (fun r hr => (rows2_ok r hr).1), trivial⟩
+
+/-! ## the cycle with every linear smoother family as an executed kernel (extension E38)
+
+Model/ExtC03XCyc.lean: `cycX` / `solveX` / `precX` = `cycM` / `solveM` / `precM` with the two smoother calls of a level being
+RECORDED RELAXATION CALLS (`C03X.Sm`): the validated executable models of `relaxation.polynomial` (Richardson, Chebyshev),
+`block_jacobi`, `block_gauss_seidel`, `jacobi_ne`, `gauss_seidel_ne`, `gauss_seidel_nr`, `cf_jacobi` / `fc_jacobi`,
+`schwarz` (recorded subdomains and subdomain inverses), `gauss_seidel` / `sor`, `jacobi` (Model/KRelax.lean,
+Model/ExtC09Block.lean, Model/ExtSmoothers.lean -- the definitions C09 compares bit-exactly with the kernels) run on the
+recorded CSR / CSC / BSR copy of the level matrix, or a matrix `Q` as before.  The driver (`c03x_run`, `c03x_q`) runs exactly
+these definitions on the level matrices of real hierarchies plus the recorded data and compares with the real `solve`,
+`aspreconditioner` and the installed closures.  `Sm.OK A s` (decidable; evaluated by the driver before every run): the
+recorded call is a call for the level matrix `A` -- its matrix copy is `A` entry by entry, indices are in range, rows have
+one non-zero stored diagonal entry where the kernel divides by it, `Dinv_i A_ii = I` for the block methods (Schwarz needs
+no such condition: any recorded blocks give a linear iteration). -/
+
+/-- (E38) **every recorded relaxation call for the level matrix is the linear iteration `x ← x + Q (b − A x)`**,
+`Q = Sm.opQ s`: `sem (applySm A s x b) = sem x + Q (sem b − A (sem x))` for all lists `x`, `b` -/
+restate recorded_smoother_is_linear_iteration := PyamgV.C03X.sm_semLin
+/-- (E38) ... so each of them satisfies the `IsLinIter` hypothesis of `abstract_cycle_is_linear_iteration` -/
+restate recorded_smoother_isLinIter := PyamgV.C03X.sm_isLinIter
+/-- (E38) `cycle_is_linear_iteration` for the extended model: one cycle is `x + M (b − A₀ x)`, `M = MopX` = the textbook
+composition (`MopL`) of the recorded smoothers' operators, `P`, `R`, the coarse solver -/
+restate extended_cycle_is_linear_iteration := PyamgV.C03X.cycX_affine
+/-- (E38) under `sem`, the extended model is the abstract recursion `cyc` -/
+restate extended_model_refines_abstract_cycle := PyamgV.C03X.cycX_sem
+/-- (E38) `exact_solution_is_fixed_point` for the extended model -/
+restate extended_exact_solution_is_fixed_point := PyamgV.C03X.cycX_fixed_point
+/-- (E38) `k_cycles_error_propagation` for the extended model -/
+restate extended_k_cycles_error_propagation := PyamgV.C03X.cycX_iter_error
+/-- (E38) `preconditioner_is_M` for the extended model -/
+restate extended_preconditioner_is_M := PyamgV.C03X.precX_eq
+/-- (E38) `k_one_cycle_calls_eq_one_k_cycle_call` for the extended model -/
+restate extended_k_one_cycle_calls := PyamgV.C03X.solveX_k_calls
+/-- (E38) with matrix smoothers the extended model IS `cycM`, and its operator is the matrix `mopM` -/
+restate extended_model_contains_matrix_model := PyamgV.C03X.cycX_mat
+restate extended_operator_is_mopM_for_matrix_smoothers := PyamgV.C03X.mopX_mat
+/-- (E38) the generic step: a cycle whose smoothers are `SemLin` is a linear iteration with operator `MopL` -/
+restate generic_cycle_is_linear_iteration := PyamgV.C03X.cycF_affine
+/-- (E38) an array kernel that computes a linear iteration for `msem A` is a `SemLin` smoother of the level matrix `A` -/
+restate array_kernel_on_padded_lists := PyamgV.C03X.semLin_viaArr
+/-- (E38) the dense forms of the recorded CSR / CSC / BSR arrays denote the sparse operators the kernel theorems are about -/
+restate csr_copy_denotes_csr_operator := PyamgV.C03X.msem_csrDense
+restate csc_copy_denotes_csc_operator := PyamgV.C03X.msem_cscDense
+restate bsr_copy_denotes_bsr_operator := PyamgV.C03X.msem_bsrDense
+/-- (E38) the families one by one (array kernel model = function-level model, which is a linear iteration) -/
+restate polynomial_call_is_linear_iteration := PyamgV.C03X.poly_semLin
+restate block_jacobi_call_is_linear_iteration := PyamgV.C03X.bjac_semLin
+restate block_gauss_seidel_call_is_linear_iteration := PyamgV.C03X.bgs_semLin
+restate jacobi_ne_call_is_linear_iteration := PyamgV.C03X.jacne_semLin
+restate gauss_seidel_ne_call_is_linear_iteration := PyamgV.C03X.gsne_semLin
+restate gauss_seidel_nr_call_is_linear_iteration := PyamgV.C03X.gsnr_semLin
+restate cf_fc_jacobi_call_is_linear_iteration := PyamgV.C03X.cfjac_semLin
+restate schwarz_call_is_linear_iteration := PyamgV.C03X.schwarz_semLin
+restate gauss_seidel_sor_call_is_linear_iteration := PyamgV.C03X.gs_semLin
+restate jacobi_call_is_linear_iteration := PyamgV.C03X.jac_semLin
+/-- (E38) the kernel loop of `gauss_seidel_nr` keeps `r = b − A x` (array model) -/
+restate gauss_seidel_nr_kernel_keeps_residual := PyamgV.C03X.nr_fold
+/-- (E38) non-vacuity and necessity of the hypothesis, evaluated by the kernel: recorded calls of every family satisfy
+`AllOK`; a stale matrix copy and a wrong inverse block are rejected, and with the wrong block the conclusion fails -/
+restate witness_all_families_ok := PyamgV.C03X.Witness.all_ok
+restate witness_stale_copy_rejected := PyamgV.C03X.Witness.stale_copy_rejected
+restate witness_wrong_inverse_rejected := PyamgV.C03X.Witness.wrong_inverse_rejected
+restate witness_wrong_inverse_moves_solution := PyamgV.C03X.Witness.wrong_inverse_moves_solution
+restate witness_extended_run_V := PyamgV.C03X.Witness.run_V
+restate witness_extended_run_blocks := PyamgV.C03X.Witness.run_blocks
+restate witness_polynomial_nontrivial := PyamgV.C03X.Witness.poly_nontrivial
+
+/-! non-vacuity (E38): the fixed-point theorem applied to the concrete recorded hierarchies -/
+open PyamgV.C03 PyamgV.C03X PyamgV.C03X.Witness in
+example : sem (cycX S2 .W 2 [L1, L2, L3, L4, L5] [1, 2] [0, 3]) = sem [1, 2] :=
+  cycX_fixed_point S2 .W 2 L1 [L2, L3, L4, L5] all_ok [1, 2] [0, 3] (by rw [← sem_matVec]; exact congrArg sem exact_solution)
+open PyamgV.C03 PyamgV.C03X PyamgV.C03X.Witness in
+example (v : Vec) : sem (precX S2 .F [L3, L4] (fun _ => true) v) = MopX S2 .F 1 [L3, L4] (sem v) :=
+  precX_eq S2 .F L3 [L4] (fun L hL => all_ok L (by simp at hL ⊢; rcases hL with h | h <;> simp [h])) (fun _ => true) v
 
 end PyamgV.Props.C03
